@@ -196,10 +196,16 @@ func AttrCells(prefix string) []*Program {
 			return &Attr{Kind: AClass, Name: "class", Parts: []ClassPart{{Lit: "c1"}, {Lit: "c2", Cond: b.bx("a.B[2]", func(e *Env) bool { return e.A.B[2] })}}}
 		case AHref:
 			return &Attr{Kind: AHref, Name: "href", X: b.sx("a.S[1]", func(e *Env) string { return e.A.S[1] })}
+		case AOnEvent:
+			b.p.Script = &ScriptTemplate{Name: b.p.Name + "s1", Body: "console.log(x)"}
+			return &Attr{Kind: AOnEvent, Name: "onclick", X: b.sx("a.S[1]", func(e *Env) string { return e.A.S[1] })}
+		case AttrKind(100): // class list holding a css component
+			b.p.CSS = &CSSTemplate{Name: b.p.Name + "k1", Props: [][2]string{{"color", "red"}}}
+			return &Attr{Kind: AClass, Name: "class", Parts: []ClassPart{{CSS: b.p.CSS}, {Lit: "c1"}}}
 		}
 		return nil
 	}
-	for _, kind := range []AttrKind{AConst, ABoolConst, ABoolExpr, AExpr, ASpread, AClass, AHref} {
+	for _, kind := range []AttrKind{AConst, ABoolConst, ABoolExpr, AExpr, ASpread, AClass, AHref, AOnEvent, AttrKind(100)} {
 		for _, place := range []string{"plain", "then", "else", "nested-then", "nested-else"} {
 			n++
 			p := &Program{Name: fmt.Sprintf("%s%d", prefix, n)}
@@ -221,7 +227,11 @@ func AttrCells(prefix string) []*Program {
 				attrs = []*Attr{{Kind: ACond, C: cond(), Then: []*Attr{other}, Else: []*Attr{{Kind: ACond, C: b.bx("a.B[1]", func(e *Env) bool { return e.A.B[1] }), Then: []*Attr{{Kind: AConst, Name: "lang", Val: "x", Quote: '"'}}, Else: []*Attr{at}}}}}
 			}
 			p.Comps = []*Component{{Name: p.Name, End: SepNL, Body: []*Node{{Kind: KElem, Name: "a", Before: SepNL, Attrs: attrs, Kids: []*Node{{Kind: KText, Text: "x"}}}}}}
-			p.Label = fmt.Sprintf("attr=%s place=%s", kind, place)
+			kn := "class-css-component"
+			if kind != AttrKind(100) {
+				kn = kind.String()
+			}
+			p.Label = fmt.Sprintf("attr=%s place=%s", kn, place)
 			out = append(out, p)
 		}
 	}
